@@ -271,6 +271,50 @@ func runC05Real(cause c05Cause, launch string, idx int) (caseLine, impl, pred st
 	return
 }
 
+// runC05NoRunner: the launch fails BEFORE there is a runner — RunnerFunc itself returns an error, or the configured group
+// for the socket directory does not exist — after go-plugin has created the socket directory: Start reports the error and
+// (with or without a later Kill) no directory is left behind.
+func runC05NoRunner(kind string) (impl, pred string) {
+	base := filepath.Join(os.Getenv("VERIF_WORK"), fmt.Sprintf("c05-nr-%d-%s", os.Getpid(), kind))
+	os.MkdirAll(base, 0o755)
+	defer os.RemoveAll(base)
+	usc := &plugin.UnixSocketConfig{TempDir: base}
+	if kind == "bad-group" {
+		usc.Group = "no-such-group-gpv"
+	}
+	calls := 0
+	client := plugin.NewClient(&plugin.ClientConfig{
+		HandshakeConfig:  kitHandshake(),
+		VersionedPlugins: kitHostSets(map[int]string{3: "netrpc"}, nil, nil),
+		Logger:           nullLogger(),
+		StartTimeout:     3 * time.Second,
+		UnixSocketConfig: usc,
+		RunnerFunc: func(l hclog.Logger, cm *exec.Cmd, tmpDir string) (runner.Runner, error) {
+			calls++
+			return nil, fmt.Errorf("runner backend unavailable")
+		},
+	})
+	var serr error
+	if _, hung, pp := withTimeout(8*time.Second, func() error { _, serr = client.Start(); return nil }); hung || pp != nil {
+		return "start-hung", "FAIL:start-hung"
+	}
+	if serr == nil {
+		return "start-ok", "FAIL:start-succeeded-without-a-runner"
+	}
+	_, khung, kpp := withTimeout(8*time.Second, func() error { client.Kill(); return nil })
+	dirs := countDirs(base)
+	impl = fmt.Sprintf("rfcalls=%d dirs=%d", calls, dirs)
+	switch {
+	case khung:
+		return impl, "FAIL:kill-hung"
+	case kpp != nil:
+		return impl, "FAIL:kill-panicked"
+	case dirs != 0:
+		return impl, "FAIL:socket-dir-left-behind"
+	}
+	return impl, "ok"
+}
+
 func runC05RunnerStartFails() (impl, pred string) {
 	base := filepath.Join(os.Getenv("VERIF_WORK"), fmt.Sprintf("c05-rsf-%d", os.Getpid()))
 	os.MkdirAll(base, 0o755)
@@ -397,6 +441,10 @@ func init() {
 		{
 			impl, pred := runC05RunnerStartFails()
 			o.emit("!C05.runner-start-fails", impl, pred)
+		}
+		for _, kind := range []string{"runnerfunc-error", "bad-group"} {
+			impl, pred := runC05NoRunner(kind)
+			o.emit("!C05.no-runner kind="+kind, impl, pred)
 		}
 		o.note("C05: %d failing scripted handshakes + %d real-process failed starts (%d causes x cmd/runner)", nerr, len(jobs), len(causes))
 	})
